@@ -186,6 +186,27 @@ func (x *g) genSecurityGadgetService() {
 		Result: &spec.Attr{Type: str()},
 		HTTP:   &spec.HTTP{Routes: []spec.Route{{Verb: "POST", Path: "/flow"}}}}
 	x.s.Services = append(x.s.Services, &spec.Service{Name: "secgadgets", BasePath: "/secgadgets", Methods: []*spec.Method{list, create, pair, flow}})
+	// a requirement declared on the SERVICE and inherited by two methods that carry the credential in different
+	// places (the Authorization header, then the query string): each endpoint must look where ITS mapping says
+	tokPayload := func() *spec.Attr {
+		return &spec.Attr{Type: &spec.Type{Kind: spec.Object, Attrs: []*spec.Attr{
+			{Name: "token", Type: str(), Sec: "token"}, {Name: "note", Type: str()}}, Required: []string{"token"}}}
+	}
+	viahdr := &spec.Method{Name: "viahdr", Payload: tokPayload(), Result: &spec.Attr{Type: str()},
+		HTTP: &spec.HTTP{Routes: []spec.Route{{Verb: "POST", Path: "/viahdr"}}}}
+	viaquery := &spec.Method{Name: "viaquery", Payload: tokPayload(), Result: &spec.Attr{Type: str()},
+		HTTP: &spec.HTTP{Routes: []spec.Route{{Verb: "POST", Path: "/viaquery"}}, Query: []spec.Loc{{Attr: "token", Wire: "t"}}}}
+	viahdr2 := &spec.Method{Name: "viahdr2", Payload: tokPayload(), Result: &spec.Attr{Type: str()},
+		HTTP: &spec.HTTP{Routes: []spec.Route{{Verb: "POST", Path: "/viahdr2"}}, Headers: []spec.Loc{{Attr: "token", Wire: "X-G-Token"}}}}
+	if len(x.s.API.Security) > 0 {
+		// (a design with API-level requirements keeps the services it had: a change that confuses the two levels must
+		// meet payloads written for the level that really applies, not crash on this one)
+		return
+	}
+	x.s.Services = append(x.s.Services, &spec.Service{Name: "secinherit", BasePath: "/secinherit",
+		Security: []*spec.Requirement{{Schemes: []string{"gjwt"}, Scopes: []string{"g:read"}}},
+		Methods:  []*spec.Method{viahdr, viaquery, viahdr2}})
+	x.s.AddFeature("service-security", "inherited-requirement-credential-in-different-places", "token-query")
 	x.s.AddFeature("security-gadget-service", "requirement-seen-scheme-then-new-scheme", "scheme-jwt", "scheme-apikey", "scheme-oauth2", "oauth2-without-scopes", "method-security")
 }
 
